@@ -149,6 +149,8 @@ HAND_TEXTS = [
                                "impl ::core::clone::Clone for Lanes<2> { fn clone(&self) -> Self { Lanes(self.0) } }\n"
                                "#[derive(::educe::Educe)]\n#[educe(Default, Clone)]\npub struct Ty<const N: usize> {\n"
                                "    pub lanes: Lanes<{ N }>,\n    pub tag: u8,\n}\n"),
+    ("into-target-through-a-fragment", "macro_rules! mk { ($n:ident, $t:ty) => {\n#[derive(::educe::Educe)]\n#[educe(Into($t))]\npub struct $n {\n    pub a: &'static str,\n    pub b: u8,\n}\n} }\n"
+                                       "mk!(Ty, &str);\nmk!(Ty2, &'static str);\n#[derive(::educe::Educe)]\n#[educe(Into(&str))]\npub struct Ty3 {\n    pub a: &'static str,\n    pub b: u8,\n}\n"),
     ("two-lifetimes-no-parameter", "#[derive(::educe::Educe)]\n#[educe(Debug, Clone, PartialEq, Eq, PartialOrd, Ord, Hash)]\n"
                                    "pub struct Ty<'a, 'b> {\n    pub a: &'a str,\n    pub b: &'b str,\n}\n"),
 ]
